@@ -560,3 +560,60 @@ def kw_values(idx, fi, call):
             for kk, vv in v.items():
                 out[kk] = text(vv)
     return out
+
+
+def field(idx, cls, prop, default=None):
+    """the private attribute behind a public property of cls (read from the property's getter: `return self.<field>`), so that rules
+    can seed and read state through the name the code uses today, whatever it is called"""
+    for c in idx.mro(cls):
+        pr = c.properties.get(prop)
+        if pr and "get" in pr:
+            rets = [n.value for n in walk_no_nested(pr["get"].node) if isinstance(n, ast.Return) and n.value is not None]
+            for r in rets:
+                if isinstance(r, ast.Attribute) and isinstance(r.value, ast.Name) and r.value.id == "self":
+                    return r.attr
+            break
+    if default is not None:
+        return default
+    raise AnalysisError(f"cannot find the attribute behind {cls}.{prop}")
+
+
+def init_field(idx, cls, param):
+    """the attribute in which cls.__init__ keeps its parameter `param` (`self.<field> = param`)"""
+    fi = idx.method(cls, "__init__")
+    for t, v, st in stores_in(fi.node):
+        if isinstance(t, ast.Attribute) and isinstance(t.value, ast.Name) and t.value.id == "self" and isinstance(v, ast.Name) and v.id == param:
+            return t.attr
+    raise AnalysisError(f"cannot find the attribute in which {cls}.__init__ keeps `{param}`")
+
+
+_NAMES = {}
+
+
+def names(idx):
+    """private attribute names the rules need to seed or observe, read from the code (property getters, comparisons) rather than
+    frozen in the rules: a consistent rename of a private attribute changes nothing for the analysis"""
+    key = id(idx)
+    if key in _NAMES:
+        return _NAMES[key]
+    n = {}
+    n["frozen"] = field(idx, "CsvPath", "is_frozen", "_freeze_path")
+    n["advance"] = field(idx, "CsvPath", "advance_count", "_advance")
+    n["is_valid"] = field(idx, "CsvPath", "is_valid", "_is_valid")
+    n["headers"] = field(idx, "CsvPath", "headers", "_headers")
+    n["limit"] = field(idx, "CsvPath", "limit_collection_to", "_limit_collection_to")
+    # the per-line snapshot of the match count: the attribute raise_match_count_if compares with match_count
+    cmc = "_current_match_count"
+    try:
+        f = idx.method("CsvPath", "raise_match_count_if")
+        for c in walk_no_nested(f.node):
+            if isinstance(c, ast.Compare):
+                ats = [x.attr for x in [c.left] + c.comparators if isinstance(x, ast.Attribute) and isinstance(x.value, ast.Name) and x.value.id == "self"]
+                if "match_count" in ats and len(ats) == 2:
+                    cmc = [a for a in ats if a != "match_count"][0]
+    except AnalysisError:
+        pass
+    n["cmc"] = cmc
+    _NAMES.clear()
+    _NAMES[key] = n
+    return n
